@@ -68,6 +68,8 @@ def cases(ctx):
     for cls in functions():
         yield "function", {"cls": cls.__name__, "seed": ctx.subseed(cls.__name__), "extra": ctx.pick(DIMS_LARGE_QUICK, DIMS_LARGE),
                            "n_random": ctx.pick(2000, 4000), "starts": ctx.pick(10, 16)}
+    for cls in functions():
+        yield "long_history", {"cls": cls.__name__, "seed": ctx.subseed("lh", cls.__name__), "points": ctx.pick(20000, 70000)}
     if not ctx.quick:
         for cls in functions():
             for rep in range(120):
@@ -85,6 +87,46 @@ def run_case(ctx, name, params):
         return
     r = ctx.rng("fn", params["seed"])
     vrng.install(vrng.SeededRandom(params["seed"]))
+    if name == "long_history":
+        # one benchmark object over a long run: sentinel points are evaluated first, then again after every 4096 evaluations of
+        # other points and at the end; every answer must be the first one (the randomised Xin-She-Yang-3 function is exempt)
+        if cls.__name__ == "XinSheYang3":
+            return
+        cand = [v for v in vs if len(v[1].costs) == 1]
+        if not cand:
+            return
+        dim, p = next((v for v in cand if len(v[1].parameters) >= 2), cand[0])
+        box = [tuple(q["bounds"]) for q in p.parameters]
+        mk = lambda: [lb + r.random() * (ub - lb) for lb, ub in box]
+        sentinels = [mk() for _ in range(4)] + [[(lb + ub) / 2 for lb, ub in box], [lb for lb, ub in box], [ub for lb, ub in box]]
+        coords = getattr(p, "global_optimum_coords", None)
+        if coords is not None and len(coords) == len(box):
+            sentinels.append([float(c) for c in coords])
+        try:
+            first = [float(p.evaluate(Individual(list(x)))[0]) for x in sentinels]
+            for k in range(params["points"]):
+                v = float(p.evaluate(Individual(mk()))[0])
+                ctx.count("long_history_evaluations")
+                if not math.isfinite(v):
+                    ctx.violation("C15/%s/totality/not_finite_scalar" % cls.__name__, "%s returned %r at evaluation %d of a long run on one "
+                                  "object" % (cls.__name__, v, k), {"function": cls.__name__, "dimension": len(box)})
+                    return
+                if k % 4096 == 4095 or k == params["points"] - 1:
+                    for x0, f0 in zip(sentinels, first):
+                        f1 = float(p.evaluate(Individual(list(x0)))[0])
+                        ctx.count("sentinel_re_evaluations")
+                        if f1 != f0:
+                            ctx.violation("C15/%s/sentinel_changed_in_long_history" % cls.__name__, "%s answers %r for a point it answered %r "
+                                          "before (%d evaluations of other points on the same object in between)"
+                                          % (cls.__name__, f1, f0, k + 1), {"function": cls.__name__, "dimension": len(box), "x": x0})
+                            return
+        except Exception as e:
+            ctx.violation("C15/%s/totality/exception/%s" % (cls.__name__, type(e).__name__), "%s.evaluate raised %r in a long run on one object"
+                          % (cls.__name__, e), {"function": cls.__name__, "dimension": len(box)})
+            return
+        ctx.nontrivial(("lh", cls.__name__))
+        ctx.count("cases")
+        return
     for dim, p in vs:
         if len(p.costs) != 1:
             continue
@@ -196,6 +238,24 @@ def run_case(ctx, name, params):
                 q = [lb + r.random() * (ub - lb) for lb, ub in box]
                 v, q = fs(q)
                 cands.append((v, q))
+            # structured points: the documented optimum of the same function in a lower dimension, embedded as a prefix or suffix
+            # and padded with random values, mid-points, bounds or this dimension's optimum coordinates (sums and products over
+            # "the first k coordinates" are where dimension-generic formulas go wrong)
+            for dk, pk in vs:
+                ck = getattr(pk, "global_optimum_coords", None)
+                if dk is None or ck is None or len(ck) != len(pk.parameters) or len(ck) >= n:
+                    continue
+                ck = [float(c) for c in ck]
+                for pad in ("rand", "rand", "mid", "lb", "ub", "opt"):
+                    rest = []
+                    for i in range(n - len(ck)):
+                        lb, ub = box[len(ck) + i]
+                        rest.append(lb + r.random() * (ub - lb) if pad == "rand" else (lb + ub) / 2 if pad == "mid" else lb if pad == "lb"
+                                    else ub if pad == "ub" else (float(coords[len(ck) + i]) if coords is not None and len(coords) == n else lb))
+                    for q in (ck + rest, rest + ck):
+                        v, q = fs(q)
+                        cands.append((v, q))
+                        ctx.count("embedded_lower_dimensional_optimum_points")
             if best is not None:
                 cands.append((sign * best[0], best[1]))
             cands.sort(key=lambda t: t[0])
